@@ -1,2 +1,170 @@
-/* placeholder, replaced by the C19 error-program interpreter */
-int vf_errprog_present(void) { return 0; }
+/*
+ * C19: interpreter for generated try/throw/catch/finally programs, executed inside the real
+ * RLC_TRY / RLC_CATCH(e) / RLC_CATCH_ANY / RLC_FINALLY / RLC_THROW macros of this build.
+ *
+ * program (prefix encoding, ints):
+ *   top    := n <action>*n                         actions outside any block
+ *   block  := kind  n <action>*n  n <action>*n  n <action>*n      (body, handler, finaliser)
+ *   kind   : 0 TRY/CATCH_ANY  1 TRY/CATCH(e)  2 TRY/CATCH_ANY/FINALLY  3 TRY/CATCH(e)/FINALLY
+ *   action := 0                nop
+ *           | 1 code           RLC_THROW(code)
+ *           | 2 <block>        nested block, entered by recursion in the same C function
+ *           | 3                library call that throws directly (bn_div by zero: ERR_NO_VALID)
+ *           | 4                RLC_THROW(ERR_CAUGHT)   (re-throw idiom)
+ *           | 5 <block>        nested block entered through a helper function call
+ *           | 6                routine in the library's own idiom: TRY { failing call } CATCH_ANY { THROW(ERR_CAUGHT) }
+ *                              FINALLY { free }
+ *           | 7                library call that succeeds (bn_add)
+ *           | 8                read err_get_code() (consumes the sticky code)
+ * events written to the log (triples type,a,b):
+ *   1 nop | 2 throw code | 3 continued-after-throw | 4 libthrow | 5 continued-after-libthrow
+ *   6 rethrow | 7 continued-after-rethrow | 8 enter id | 9 handler id code(-1 for CATCH_ANY)
+ *   10 finally id | 11 exit id chain_restored | 12 end code1 code2 | 13 last_is_null v
+ *   14 libcaught | 15 continued-after-libcaught | 16 libok value_ok | 17 getcode v
+ * block ids are static (offset of the block in the program), so they do not depend on execution order.
+ */
+#include <string.h>
+#include "relic.h"
+
+static const int *vf_pc, *vf_base;
+static int *vf_log;
+static int vf_nlog, vf_maxlog;
+
+static void ev(int t, int a, int b) {
+	if (vf_nlog + 3 <= vf_maxlog) {
+		vf_log[vf_nlog] = t; vf_log[vf_nlog + 1] = a; vf_log[vf_nlog + 2] = b;
+	}
+	vf_nlog += 3;
+}
+
+static void run_block(void);
+static void __attribute__((noinline)) helper(void) { run_block(); }
+static void skip_actions(int n);
+static void skip_block(void) { vf_pc++; for (int s = 0; s < 3; s++) { int n = *vf_pc++; skip_actions(n); } }
+static void skip_actions(int n) {
+	for (int i = 0; i < n; i++) {
+		int a = *vf_pc++;
+		if (a == 1) vf_pc++;
+		else if (a == 2 || a == 5) skip_block();
+	}
+}
+
+static void lib_throw_direct(void) {
+	bn_t x, y;
+	bn_null(x); bn_null(y);
+	bn_new(x); bn_new(y);
+	bn_set_dig(x, 7); bn_zero(y);
+	ev(4, 0, 0);
+	bn_div(x, x, y);
+	ev(5, 0, 0);
+	bn_free(x); bn_free(y);
+}
+
+/* the library's own idiom: protected block around a failing call, CATCH_ANY re-throws ERR_CAUGHT,
+ * FINALLY releases the temporaries (compare bn_lcm, bn_div_imp, ...) */
+static void __attribute__((noinline)) lib_style(void) {
+	bn_t u;
+	bn_null(u);
+	RLC_TRY {
+		bn_new(u);
+		bn_zero(u);
+		bn_div(u, u, u);
+	}
+	RLC_CATCH_ANY {
+		RLC_THROW(ERR_CAUGHT);
+	}
+	RLC_FINALLY {
+		bn_free(u);
+	}
+}
+
+static void lib_throw_caught(void) {
+	ev(14, 0, 0);
+	lib_style();
+	ev(15, 0, 0);
+}
+
+static void lib_ok(void) {
+	bn_t x, y;
+	bn_null(x); bn_null(y);
+	bn_new(x); bn_new(y);
+	bn_set_dig(x, 40); bn_set_dig(y, 2);
+	bn_add(x, x, y);
+	ev(16, bn_cmp_dig(x, 42) == RLC_EQ, 0);
+	bn_free(x); bn_free(y);
+}
+
+static void run_actions(int n) {
+	for (int i = 0; i < n; i++) {
+		int a = *vf_pc++;
+		switch (a) {
+		case 0: ev(1, 0, 0); break;
+		case 1: { int c = *vf_pc++; ev(2, c, 0); RLC_THROW(c); ev(3, 0, 0); break; }
+		case 2: run_block(); break;
+		case 3: lib_throw_direct(); break;
+		case 4: ev(6, 0, 0); RLC_THROW(ERR_CAUGHT); ev(7, 0, 0); break;
+		case 5: helper(); break;
+		case 6: lib_throw_caught(); break;
+		case 7: lib_ok(); break;
+		case 8: ev(17, err_get_code(), 0); break;
+		}
+	}
+}
+
+/* a longjmp abandons the parse position, so every segment start is computed up front */
+static void run_block(void) {
+	int id = (int)(vf_pc - vf_base);
+	int kind = *vf_pc++;
+	const int *body = vf_pc; int nb = *vf_pc++; skip_actions(nb);
+	const int *cb = vf_pc; int nc = *vf_pc++; skip_actions(nc);
+	const int *fb = vf_pc; int nf = *vf_pc++; skip_actions(nf);
+	const int *end = vf_pc;
+	err_t e = 0;
+	void *last_before = core_get()->last;
+	ev(8, id, 0);
+	switch (kind) {
+	case 0:
+		RLC_TRY { vf_pc = body + 1; run_actions(nb); }
+		RLC_CATCH_ANY { ev(9, id, -1); vf_pc = cb + 1; run_actions(nc); }
+		break;
+	case 1:
+		RLC_TRY { vf_pc = body + 1; run_actions(nb); }
+		RLC_CATCH(e) { ev(9, id, (int)e); vf_pc = cb + 1; run_actions(nc); }
+		break;
+	case 2:
+		RLC_TRY { vf_pc = body + 1; run_actions(nb); }
+		RLC_CATCH_ANY { ev(9, id, -1); vf_pc = cb + 1; run_actions(nc); }
+		RLC_FINALLY { ev(10, id, 0); vf_pc = fb + 1; run_actions(nf); }
+		break;
+	case 3:
+		RLC_TRY { vf_pc = body + 1; run_actions(nb); }
+		RLC_CATCH(e) { ev(9, id, (int)e); vf_pc = cb + 1; run_actions(nc); }
+		RLC_FINALLY { ev(10, id, 0); vf_pc = fb + 1; run_actions(nf); }
+		break;
+	}
+	vf_pc = end;
+	ev(11, id, core_get()->last == last_before);
+}
+
+/* Runs one program in the current context.  Returns the number of ints the log needs. */
+int vf_errprog_run(const int *prog, int *log, int maxlog) {
+	ctx_t *ctx = core_get();
+	int c1, c2;
+	/* fresh state, as after core_init(): no handler, no pending code */
+	ctx->last = NULL;
+	ctx->code = RLC_OK;
+	ctx->caught = 0;
+	vf_base = prog; vf_pc = prog; vf_log = log; vf_nlog = 0; vf_maxlog = maxlog;
+	int top = *vf_pc++;
+	run_actions(top);
+	c1 = err_get_code();
+	c2 = err_get_code();
+	ev(12, c1, c2);
+	ev(13, core_get()->last == NULL, 0);
+	/* leave the context clean for whatever runs next in this process */
+	ctx->last = NULL;
+	ctx->code = RLC_OK;
+	return vf_nlog;
+}
+
+int vf_errprog_present(void) { return 1; }
